@@ -33,6 +33,7 @@ def vec_norm(an, t):
     """rewrite element reads through push / insert / remove / element updates into γ-terms over the older vector"""
     def elem(v, j):
         op = v[0]
+        j = simp_idx(j)
         if op == 'pre':
             return ('pre', v[1] + (('idx', j),))
         if op == 'vinsert':
@@ -42,7 +43,10 @@ def vec_norm(an, t):
             k = v[2]
             return mk('gamma', mk('lt', j, k), elem(v[1], j), elem(v[1], mk('add', j, ONE)))
         if op == 'push':
-            return mk('gamma', mk('eq', j, length(v[1])), v[2], elem(v[1], j))
+            n_ = simp_idx(length(v[1]))
+            if j == n_:
+                return v[2]
+            return mk('gamma', mk('eq', j, n_), v[2], elem(v[1], j))
         if op == 'upd':
             sub = v[2]
             if sub and sub[0][0] == 'idx':
@@ -698,6 +702,13 @@ def add_speeds(ctx, prop='C02', direction='le'):
                 return (red == TRUE and o_ != '0') or (red == FALSE and o_ == '0')
             if holds_if_applies(cnd, o):
                 continue
+            # a condition implied by `speed < speed_max` (e.g. `<=`) skips nothing the reference would insert
+            neg = {'lt': 'ge', 'le': 'gt', 'gt': 'le', 'ge': 'lt'}
+            if cnd[0] in neg and len(cnd) == 3:
+                goal = cnd if o != '0' else (neg[cnd[0]], cnd[1], cnd[2])
+                if Prover(an.names, assume=[]).holds(goal, [filt])[0] == 'PROVED':
+                    seen_filt = True
+                    continue
             kept.append((show(cnd, an.names)[:100], o))
         rest = kept
     if direction == 'le':
@@ -826,3 +837,137 @@ def applies(ctx):
                 good = False; why.append('%s -> %s' % (cv['name'], show(t, an.names)[:80] if t else None))
         ctx.check(good, R, 'LimitType::' + name, 'compares train_params.%s with the parameter\'s limit value using the operator its CompareType names' % QUANT[name], '; '.join(why)[:300], w)
 
+
+
+# ------------------------------------------------------------------------------------------------ canonical form (C13-8)
+def _alternatives(pc):
+    """a path condition as a list of conjunctions: synthetic path-set decisions are expanded into their alternatives"""
+    alts = [[]]
+    for c, o in pc or ():
+        if c[0] == 'pathset':
+            if o == '0':
+                return None
+            new = []
+            for a in alts:
+                for alt in c[2]:
+                    sub = _alternatives(alt)
+                    if sub is None:
+                        return None
+                    for s_ in sub:
+                        new.append(a + s_)
+            alts = new
+            if len(alts) > 64:
+                return None
+        else:
+            alts = [a + [(c, o)] for a in alts]
+    return alts
+
+
+def _distinct_in(an, conj, A, B):
+    """does the conjunction state A != B?  equalities stated in it are used as rewrites (one congruence step)"""
+    A = assume_nonneg(vec_norm(an, A)); B = assume_nonneg(vec_norm(an, B))
+    cls = {}
+    def find(x):
+        while cls.get(x, x) != x:
+            x = cls[x]
+        return x
+    nes = []
+    for c, o in conj:
+        c = assume_nonneg(vec_norm(an, c))
+        pos = o != '0'
+        while c[0] == 'not':
+            c = c[1]; pos = not pos
+        if c[0] == 'eq' and pos or c[0] == 'ne' and not pos:
+            cls[find(c[1])] = find(c[2])
+        elif c[0] == 'ne' and pos or c[0] == 'eq' and not pos:
+            nes.append((c[1], c[2]))
+    a, b = find(A), find(B)
+    return any({find(p), find(q)} == {a, b} for p, q in nes)
+
+
+def canonical(ctx):
+    """C13-8.canonical: the stored profile has no redundant equal-valued neighbours.  Necessary conditions per statement of
+    insert_speed: a point is added, or a point's speed overwritten, only on paths where the path condition states that the
+    value differs from the value the left neighbour carries (or will carry once the restriction is applied, for the
+    restore point in the overlap branch), or the point has no left neighbour; and after the update loop the last touched
+    point is merged away whenever it equals its left neighbour, on nothing but that comparison."""
+    R = 'C13-8.canonical'
+    b, an = analysis(ctx)
+    if b is None or an is None or an.exit_state is None:
+        ctx.unproved(R, 'insert_speed', 'InsertSpeed::insert_speed not found / not analysable'); return
+    S = sites(ctx, b, an)
+    s_speed = SL('speed')
+    seen = {}
+    n = 0
+    for s in S:
+        w = ctx.where(b, s.span)
+        cur = s.cur
+        no_left = None
+        if s.kind in ('push', 'insert'):
+            f = fields(s.point)
+            o, x = f.get('offset'), f.get('speed_limit')
+            k_prev = mk('sub', ('len', cur), ONE) if s.kind == 'push' else mk('sub', s.k, ONE)
+            if o == SL('offset_start') or s.kind == 'push':
+                A, B = elem_speed(an, cur, k_prev), x
+                what = 'the new point\'s speed differs from its left neighbour\'s'
+            else:
+                A, B = x, min_speed_term(ctx, x, s_speed)
+                what = 'the restored speed differs from the speed in force up to offset_end once the restriction is applied'
+            key = '%s at %s' % (s.kind, 'offset_start' if o == SL('offset_start') else 'offset_end')
+        elif s.kind == 'store_speed_limit':
+            A, B = elem_speed(an, cur, mk('sub', s.k, ONE)), s.val
+            no_left = s.k
+            what = 'the overwritten speed differs from the left neighbour\'s, or the point is the first'
+            key = 'speed of point %s' % _idx_name(an, s.k)
+        elif s.kind == 'store_offset':
+            A, B = elem_speed(an, cur, mk('sub', s.k, ONE)), elem_speed(an, cur, s.k)
+            what = 'the moved point\'s speed differs from its left neighbour\'s'
+            key = 'offset of point %s' % _idx_name(an, s.k)
+        else:
+            continue
+        c_ = seen.get(key, 0); seen[key] = c_ + 1
+        if c_:
+            key = '%s #%d' % (key, c_ + 1)
+        n += 1
+        if B is None:
+            ctx.unproved(R, key, 'min_speed not found', w); continue
+        alts = _alternatives(s.pc)
+        if alts is None:
+            ctx.unproved(R, key, 'path condition not expandable', w); continue
+        bad = []
+        for conj in alts:
+            if _distinct_in(an, conj, A, B):
+                continue
+            if no_left is not None:
+                fs = [assume_nonneg(x_) for x_ in facts_of(an, conj)]
+                v, _d = Prover(an.names, assume=[]).le(vec_norm(an, no_left), ZERO, fs)
+                if v == 'PROVED':
+                    continue
+            bad.append(conj)
+        txt = '%s :: %s ≠ %s' % (what, show(assume_nonneg(vec_norm(an, A)), an.names)[:140], show(assume_nonneg(vec_norm(an, B)), an.names)[:200])
+        if not bad:
+            ctx.ok(R, key, txt + ' :: stated by the path condition on each of %d path(s)' % len(alts), w)
+        else:
+            ctx.unproved(R, key, txt + ' :: not stated on %d of %d path(s) to this statement; e.g. under %s' % (
+                len(bad), len(alts), [(show(c, an.names)[:90], o) for c, o in bad[0][-3:]]), w)
+    ctx.floor('statements of insert_speed that add a point or overwrite a speed', n, 8)
+    # the final merge: present, outside the loop, decided on k > 0 and equality with the left neighbour only
+    fin = [s for s in S if s.kind == 'remove' and not s.in_loop]
+    inl = [s for s in S if s.in_loop]
+    if len(fin) != 1 or not inl:
+        ctx.unproved(R, 'final merge', 'expected one removal after the update loop and sites inside it (found %d, %d)' % (len(fin), len(inl)), ctx.where(b)); return
+    s = fin[0]
+    w = ctx.where(b, s.span)
+    pre = 0
+    pin = list(inl[0].pc or ())
+    pf = list(s.pc or ())
+    while pre < len(pin) and pre < len(pf) and pin[pre] == pf[pre]:
+        pre += 1
+    tail = pf[pre:]
+    A, B = elem_speed(an, s.cur, mk('sub', s.k, ONE)), elem_speed(an, s.cur, s.k)
+    A = assume_nonneg(A); B = assume_nonneg(B)
+    ok_shape = len(tail) == 3 and tail[0][1] == '0' and tail[0][0][0] in ('lt', 'gt', 'ne', 'le', 'ge') \
+        and tail[1][0] == mk('gt', s.k, ZERO) and tail[1][1] != '0' \
+        and tail[2][1] != '0' and tail[2][0][0] == 'eq' and {assume_nonneg(vec_norm(an, tail[2][0][1])), assume_nonneg(vec_norm(an, tail[2][0][2]))} == {A, B}
+    ctx.check(ok_shape, R, 'final merge', 'after the update loop the point it stopped at is removed exactly when it has a left neighbour carrying the same speed',
+              'the removal after the loop is decided by %s' % ([(show(vec_norm(an, c), an.names)[:120], o) for c, o in tail],), w)
